@@ -14,7 +14,7 @@ RULE = ('trees = nests of dict / Dict / dictattr over string keys (some containi
         'EVERY pair of the 36 dict-rooted trees over keys {a,b} of depth <= 2 (empty branches included), random pairs where u is derived from t '
         '(changed leaves, leaf-vs-branch conflicts both ways, new keys, deep overlaps), u is t itself, u = {}, ignore lists. table cases: '
         'patterns of 2..6 segments with 1..4 %wildcards, rows with unique paths -> table_to_tree (from None or onto an existing tree) -> '
-        'tree_to_table -> table_to_tree. Everything is compared inside Coq with M_tree (cow = true). Oracle on the real outputs: rebuild == t, '
+        'tree_to_table -> table_to_tree (rows as list / dictable / single dict, pattern as string / list, dictable(tree, pattern)); tree_setitem cases (tuple / list / dotted-string path); tree_get on every path in every spelling; a 150-key branch, a depth-12 chain, a 150-row table. Everything is compared inside Coq with M_tree (cow = true). Oracle on the real outputs: rebuild == t, '
         'keys/values are the projections of items, getitem returns the leaf, result == the recursive merge written from the property text, '
         'update(t,t) == t, update(t,{}) == t, snapshots of t and u unchanged, rows come back as the same set of rows. '
         'non-trivial = update with a common key, flat tree of depth >= 2, table with >= 2 rows; distinct by the JSON of the case')
@@ -26,13 +26,13 @@ EXPLANATION = ('theorems C15_* (coq/props/C15.v) hold for every tree of the indu
                '(C15_tree_table_tree_inverse); the pinned shallow-copy variant is refuted inside Coq on the DESIGN input. The correspondence ties the model to /repo on thousands of trees')
 TRUSTED = ['modelled, not verified: Python dict insertion order / in-place assignment (association lists, M_tree.kset), copy() of a dict (a new object sharing the values), '
            'the harness builder that turns the JSON description into Python objects and Coq literals']
-ASSUMPTIONS = ['keys are ASCII strings (dots allowed: every path is passed as a tuple / list, never as a dotted string)', 'branches are exactly dict, Dict or dictattr objects; leaves are None, ints, strings or lists of those',
+ASSUMPTIONS = ['keys are ASCII strings (dots and the empty key allowed when the path is a tuple / list; dotted-string paths only for dot-free non-empty keys)', 'branches are exactly dict, Dict or dictattr objects; leaves are None, ints, strings or lists of those',
                'the operands hold no object twice (trees, not DAGs)', 'wildcard names in a pattern are distinct; wildcard values used as keys are strings']
 EXHAUSTIVE = {'quick': False, 'thorough': False}
 
 CLS = {'dict': 0, 'Dict': 1, 'dictattr': 2}
 CLSN = ['dict', 'Dict', 'dictattr']
-KEYS = ['a', 'b', 'c', 'd', 'x', 'v1.0', 'v1', '0', 'a.b', '.']
+KEYS = ['a', 'b', 'c', 'd', 'x', 'v1.0', 'v1', '0', 'a.b', '.', '']
 
 def Nd(kids, cls='dict'): return ['N', cls, [[k, v] for k, v in kids]]
 def Lf(v): return ['L', v]
@@ -65,12 +65,14 @@ def coq_row(r):
     return '[' + '; '.join('(%s, %s)' % (coq_str(k), coq_leaf(v)) for k, v in r) + ']'
 
 def coq_runner(case):
-    return {'flat': 'run_flat', 'update': 'run_update', 'table': 'run_table'}[case['kind']]
+    return {'flat': 'run_flat', 'update': 'run_update', 'table': 'run_table', 'setitem': 'run_setitem'}[case['kind']]
 def coq_case(case):
     k = case['kind']
     if k == 'flat': return coq_tree(case['t'])
     if k == 'update':
         return '(%s, %s, [%s])' % (coq_tree(case['t']), coq_tree(case['t'] if case.get('same') else case['u']), '; '.join(coq_leaf(x) for x in case.get('ignore', [])))
+    if k == 'setitem':
+        return '(%s, [%s], %s, [%s])' % (coq_tree(case['t']), '; '.join(coq_str(x) for x in case['path']), coq_leaf(case['value']), '; '.join(coq_leaf(x) for x in case.get('ignore', [])))
     if k == 'table':
         t0 = 'None' if case.get('t0') is None else '(Some %s)' % coq_tree(case['t0'])
         return '(%s, %s, [%s])' % (t0, coq_pat(case['pattern']), '; '.join(coq_row(r) for r in case['rows']))
@@ -78,8 +80,8 @@ def coq_case(case):
 
 # ------------------------------------------------------------------ implementation side
 def impl_setup():
-    global Dict, dictattr, tree_items, tree_keys, tree_values, tree_getitem, items_to_tree, tree_update, tree_to_table, table_to_tree, TYPES
-    from pyg_base import Dict, dictattr, tree_items, tree_keys, tree_values, tree_getitem, items_to_tree, tree_update, tree_to_table
+    global Dict, dictattr, dictable, tree_items, tree_keys, tree_values, tree_getitem, tree_get, tree_setitem, items_to_tree, tree_update, tree_to_table, table_to_tree, TYPES
+    from pyg_base import Dict, dictattr, dictable, tree_items, tree_keys, tree_values, tree_getitem, tree_get, tree_setitem, items_to_tree, tree_update, tree_to_table
     from pyg_base._table_to_tree import table_to_tree
     TYPES = {'dict': dict, 'Dict': Dict, 'dictattr': dictattr}
 
@@ -168,6 +170,8 @@ def impl(case):
             viol = 'tree_values(%s) = %s is not the leaves of tree_items in order' % (show(s), values)
         elif is_node(s) and any(g != ['L', canon_leaf(it[-1])] for g, it in zip(got, items)):
             viol = 'tree_getitem(%s, path) does not return the leaf for some listed path: %s' % (show(s), got)
+        elif is_node(s) and (w := flat_extra(s, t, keys, items)):
+            viol = w
         elif is_node(s) and full(s) and not (back is not None and back == t and canon_tree(t) == canon_tree(build(s))):
             viol = 'items_to_tree(tree_items(t)) = %s != t = %s' % (cback, show(s))
         return {'status': 'ok', 'obs': obs, 'viol': viol}
@@ -178,7 +182,8 @@ def impl(case):
         before_t, before_u = canon_tree(t), canon_tree(u)
         call = ('%s + %s' % (show(st), show(su))) if case.get('via') == 'add' else 'tree_update(%s, %s%s)' % (show(st), show(su), (', ignore=%r' % ign) if ign else '')
         try:
-            res = (t + u) if case.get('via') == 'add' else tree_update(t, u, ignore=ign) if ign else tree_update(t, u)
+            ign_arg = ign[0] if case.get('ignore_scalar') and len(ign) == 1 and ign[0] is not None and not isinstance(ign[0], list) else ign
+            res = (t + u) if case.get('via') == 'add' else tree_update(t, u, ignore=ign_arg) if ign else tree_update(t, u)
         except Exception as e:
             ok_to_raise = not is_node(su)
             return {'status': err(e), 'obs': ['ERR', err(e)], 'viol': None if ok_to_raise else '%s raised %s' % (call, err(e))}
@@ -198,14 +203,36 @@ def impl(case):
             elif not su[2] and not res == plain(st):
                 viol = 'tree_update(t, {}) != t for t = %s' % show(st)
         return {'status': 'ok', 'obs': obs, 'viol': viol}
+    if k == 'setitem':
+        st, path, value, ign = case['t'], case['path'], case['value'], case.get('ignore', [])
+        t = build(st); sp = case.get('spell', 'tuple')
+        key = tuple(path) if sp == 'tuple' else list(path) if sp == 'list' else '.'.join(path)
+        call = 'tree_setitem(%s, %r, %r%s)' % (show(st), key, value, (', ignore=%r' % ign) if ign else '')
+        try:
+            r = tree_setitem(t, key, copy.deepcopy(value), ignore=ign) if ign else tree_setitem(t, key, copy.deepcopy(value))
+        except Exception as e:
+            return {'status': err(e), 'obs': ['ERR', err(e)], 'viol': '%s raised %s' % (call, err(e))}
+        exp = plain(ref_merge(st, path_tree(path, value), ign))
+        viol = None
+        if r is not None:
+            viol = '%s returned %r (it works in place and returns None)' % (call, r)
+        elif not (t == exp and exp == t):
+            viol = '%s leaves the tree as %s but assigning that one path gives %s' % (call, t, exp)
+        return {'status': 'ok', 'obs': canon_tree(t), 'viol': viol}
     if k == 'table':
         pat = case['pattern']; pattern = '/'.join(pat)
         rows = [dict(r) for r in case['rows']]
         t0 = None if case.get('t0') is None else build(case['t0'])
         before = None if t0 is None else canon_tree(t0)
         try:
-            tree = table_to_tree(t0, pattern, [dict(r) for r in rows])
+            ras = case.get('rows_as', 'list')
+            table = [dict(r) for r in rows]
+            if ras == 'dict' and len(rows) == 1: table = table[0]
+            elif ras == 'dictable' and rows: table = dictable(**{c: [r[c] for r in rows] for c in rows[0]})
+            tree = table_to_tree(t0, pattern, table)
             back = tree_to_table(tree, pattern)
+            back_list = tree_to_table(tree, list(pat))
+            back_dictable = list(dictable(tree, pattern)) if back else []
             tree2 = table_to_tree(None, pattern, [dict(r) for r in back])
         except Exception as e:
             return {'status': err(e), 'obs': ['ERR', 'Error'], 'viol': 'table_to_tree / tree_to_table raised %s on pattern %r rows %r' % (err(e), pattern, rows)}
@@ -213,9 +240,13 @@ def impl(case):
         same0 = True if t0 is None else canon_tree(t0) == before
         obs = [canon_tree(tree), [crow(r) for r in back], same0, canon_tree(tree2)]
         viol = None
-        key = lambda r: json.dumps(crow(r))
         paths = [tuple(r[p[1:]] if p.startswith('%') else p for p in pat[:-1]) for r in rows]
-        if not same0:
+        key = lambda r: json.dumps(crow(r))
+        if [key(r) for r in back_list] != [key(r) for r in back]:
+            viol = 'tree_to_table(tree, %r) = %s differs from the string pattern spelling %s' % (list(pat), back_list, back)
+        elif sorted(key(dict(r)) for r in back_dictable) != sorted(key(r) for r in back):
+            viol = 'dictable(tree, %r) has rows %s but tree_to_table gives %s' % (pattern, back_dictable, back)
+        elif not same0:
             viol = 'table_to_tree(t0, %r, rows) modified t0 = %s: it is now %s' % (pattern, show(case['t0']), canon_tree(t0))
         elif t0 is None and len(set(paths)) == len(paths):
             if sorted(map(key, back)) != sorted(map(key, rows)):
@@ -225,6 +256,33 @@ def impl(case):
         return {'status': 'ok', 'obs': obs, 'viol': viol}
     raise ValueError(k)
 
+SENTINEL = ['no such path']
+def flat_extra(s, t, keys, items):
+    """tree_get agrees with tree_getitem on every listed path in every spelling (tuple, list, dotted string when no key on the
+    path has a dot or is empty); a path that is not in the tree gives the default"""
+    for p, it in zip(keys, items):
+        leaf = it[-1]
+        for spelled in (tuple(p), list(p)):
+            if canon_tree(tree_get(t, spelled, SENTINEL)) != canon_tree(leaf):
+                return 'tree_get(%s, %r) = %r but the leaf there is %r' % (show(s), spelled, tree_get(t, spelled, SENTINEL), leaf)
+        if p and all(k and '.' not in k for k in p):
+            d = '.'.join(p)
+            try: g1 = tree_getitem(t, d)
+            except Exception as e: g1 = ('raised', type(e).__name__)
+            if canon_tree(g1) != canon_tree(leaf) or canon_tree(tree_get(t, d, SENTINEL)) != canon_tree(leaf):
+                return 'tree_getitem / tree_get(%s, %r) = %r / %r but the leaf there is %r' % (show(s), d, g1, tree_get(t, d, SENTINEL), leaf)
+    for p in keys[:3]:
+        q = tuple(p) + ('no_such_key',)
+        if tree_get(t, q, SENTINEL) is not SENTINEL or tree_get(t, list(p[:-1]) + ['no_such_key'], SENTINEL) is not SENTINEL:
+            return 'tree_get(%s, %r, default) does not return the default for a path that is not in the tree' % (show(s), q)
+    return None
+
+def path_tree(path, value):
+    u = Lf(value)
+    for k in reversed(path):
+        u = Nd([(k, u)])
+    return u
+
 def common_key(t, u):
     return is_node(t) and is_node(u) and any(lookup(t[2], k) is not None for k, _ in u[2])
 
@@ -232,11 +290,13 @@ def nontrivial(case, result):
     k = case['kind']
     if k == 'flat': return depth(case['t']) >= 2
     if k == 'update': return bool(case.get('same')) or common_key(case['t'], case['u'])
+    if k == 'setitem': return len(case['path']) >= 2
     return len(case['rows']) >= 2
 
 def shape(case):
     k = case['kind']
     if k == 'flat': return 'flat:d%d' % depth(case['t'])
+    if k == 'setitem': return 'setitem:%s' % case.get('spell', 'tuple')
     if k == 'update': return 'update:%s%s%s' % (case.get('via', 'tree_update'), ':same' if case.get('same') else '', ':ignore' if case.get('ignore') else '')
     return 'table:w%d%s' % (sum(1 for p in case['pattern'] if p.startswith('%')), ':onto' if case.get('t0') is not None else '')
 
@@ -337,8 +397,23 @@ def dotted_seeds():
             {'kind': 'table', 'pattern': ['v1.0', '%m', 'a.b', '%w'], 'rows': [[['m', 'v1.0'], ['w', 1]], [['m', 'v1'], ['w', 2]]]}]
     return out
 
+def big_cases():
+    """sizes > 100: a 150-key branch, a depth-12 chain, both flattened, updated and addressed; a 150-row table"""
+    wide = Nd([('k%d' % i, Lf(i) if i % 3 else Nd([('x', Lf(i)), ('y', Lf(None))])) for i in range(150)])
+    deep = Lf(1)
+    for i in range(12):
+        deep = Nd([('d%d' % i, deep), ('s', Lf(i))], CLSN[i % 3])
+    uw = Nd([('k%d' % i, Nd([('x', Lf(-i))]) if i % 2 else Lf('new')) for i in range(0, 150, 7)] + [('zz', Lf(0))])
+    ud = path_tree(['d11', 'd10', 'd9', 'd8', 'd7', 'd6', 'd5'], 99)
+    rows = [[['a', 'r%d' % (i // 10)], ['b', 'c%d' % (i % 10)], ['v', i]] for i in range(150)]
+    return [{'kind': 'flat', 't': wide}, {'kind': 'flat', 't': deep}, {'kind': 'update', 't': wide, 'u': uw}, {'kind': 'update', 't': deep, 'u': ud},
+            {'kind': 'update', 't': wide, 'u': wide, 'same': True}, {'kind': 'setitem', 't': deep, 'path': ['d11', 'd10', 'd9', 's', 'new'], 'value': 5, 'spell': 'str'},
+            {'kind': 'table', 'pattern': ['big', '%a', '%b', '%v'], 'rows': rows}, {'kind': 'table', 'pattern': ['big', '%a', '%b', '%v'], 'rows': rows[:40], 'rows_as': 'dictable'}]
+
 def gen_cases(rng, tier):
-    cases = dotted_seeds()
+    cases = dotted_seeds() + big_cases()
+    for v in (5, None, 'x', [1, 2]):
+        cases.append({'kind': 'flat', 't': Lf(v)})
     T2 = [t for t in small_trees(2, 1) if is_node(t)]
     U2 = [t for t in small_trees(2, 2) if is_node(t)]
     for t in T2:
@@ -360,16 +435,38 @@ def gen_cases(rng, tier):
         else: c['u'] = Lf(rand_leaf(rng)); c['via'] = 'tree_update'
         if c['via'] == 'tree_update' and rng.random() < 0.2:
             c['ignore'] = rng.choice([[None], [None, 0], ['x'], [1], [[1, 2]]])
+            c['ignore_scalar'] = rng.random() < 0.4
         cases.append(c)
     for _ in range(n):
         pat, rows = rand_table(rng)
         c = {'kind': 'table', 'pattern': pat, 'rows': rows}
+        r = rng.random()
+        if r < 0.15 and len(rows) == 1: c['rows_as'] = 'dict'
+        elif r < 0.4 and rows and all(not isinstance(v, list) for row in rows for _, v in row) and len({tuple(sorted(k for k, _ in row)) for row in rows}) == 1: c['rows_as'] = 'dictable'
         if rng.random() < 0.3:
             base = Nd([(LITS[0], rand_root(rng, 2, None, 0))], rng.choice(CLSN)) if rng.random() < 0.5 else rand_root(rng, 3, None, 0)
             # make an overlap likely: graft the tree the rows would build under the same literals
             c['t0'] = base
         cases.append(c)
+    for _ in range(n):
+        t = rand_root(rng, rng.choice([1, 2, 3, 4]), None, rng.choice([0, 0, 0.1]))
+        keys = [p for p, _ in flat_paths(t)]
+        r = rng.random()
+        if keys and r < 0.35: path = list(rng.choice(keys))                                  # overwrite a leaf
+        elif keys and r < 0.6: path = list(rng.choice(keys))[:-1] + [rng.choice(KEYS)]       # sibling / overwrite
+        elif keys and r < 0.8: path = list(rng.choice(keys)) + [rng.choice(KEYS)]            # a leaf in the way becomes a branch
+        elif keys and r < 0.9: path = list(rng.choice(keys))[:max(1, len(rng.choice(keys)) - 1)]   # a branch is replaced by a leaf
+        else: path = [rng.choice(KEYS) for _ in range(rng.choice([1, 2, 3]))]
+        c = {'kind': 'setitem', 't': t, 'path': path, 'value': rand_leaf(rng)}
+        c['spell'] = rng.choice(['tuple', 'list', 'str']) if all(k and '.' not in k for k in path) else rng.choice(['tuple', 'list'])
+        if rng.random() < 0.25: c['ignore'] = rng.choice([[None], [None, 0], ['x'], [1]])
+        cases.append(c)
     return cases
+
+def flat_paths(s, prefix=()):
+    if not is_node(s):
+        return [(prefix, s[1])]
+    return [x for k, v in s[2] for x in flat_paths(v, prefix + (k,))]
 
 LEVEL_TEXT = ('machine-checked Coq theorems (C15_*, by structural induction over every tree: any depth, any branching) that flatten-then-insert equals the '
               'recursive merge, that rebuild inverts flatten on trees with non-empty branches, idempotence, empty update, that the repaired tree_update / table_to_tree never '
